@@ -515,6 +515,14 @@ func (p *plugin) synchronize(ctx context.Context, pods []*PodSandbox, containers
 				return nil, err
 			}
 
+			// Never ask for more objects than we have left to send.
+			if podsPerMsg > len(podsToSend) {
+				podsPerMsg = len(podsToSend)
+			}
+			if ctrsPerMsg > len(ctrsToSend) {
+				ctrsPerMsg = len(ctrsToSend)
+			}
+
 			log.Debugf(ctx, "oversized message, retrying in smaller chunks")
 		}
 	}
@@ -552,8 +560,15 @@ func recalcObjsPerSyncMsg(pods, ctrs int, err error) (int, int, error) {
 		factor = 0.9
 	}
 
-	pods = int(float64(pods) * factor)
-	ctrs = int(float64(ctrs) * factor)
+	// Scale both kinds down, but keep sending at least one object of a kind
+	// we have been sending. A share rounded down to zero would never be sent,
+	// and the sync could not finish once the other kind has run out.
+	if pods > 0 {
+		pods = max(1, int(float64(pods)*factor))
+	}
+	if ctrs > 0 {
+		ctrs = max(1, int(float64(ctrs)*factor))
+	}
 
 	if pods+ctrs < minObjsPerMsg {
 		pods = minObjsPerMsg / 2
